@@ -128,3 +128,9 @@ plan("C10", "exploration",
      lambda tier: [S("C10", 20000 if tier == "quick" else 600000)],
      assumptions=["bound = len + 5*max(1,ceil(len/65535)) + (10,8) gzip / (0,8) gzip-no-hdr / (2,4) zlib / (0,4) zlib-no-hdr / 0 raw as stated by the property",
                   "either ISAL_INVALID_LEVEL or ISAL_INVALID_LEVEL_BUF is accepted for a missing/undersized level buffer"])
+
+plan("C14", "exploration",
+     "Generated histories: 1-5 feed steps each followed by a NO/SYNC/FULL flush request, drained through generated output chunkings (down to 1-byte buffers), x level x wrapper x hist_bits x cpu level; "
+     "segments after a flush copy content from before it. Plus sequences of one-shot raw-deflate FULL_FLUSH calls. Non-trivial: a completed flush followed by >= 64 bytes repeating pre-flush content.",
+     lambda tier: [S("C14", 8000 if tier == "quick" else 400000)],
+     assumptions=["flush-point clauses are asserted only under the property's precondition (all input consumed, output space left)"])
